@@ -3,6 +3,7 @@ package rules
 import (
 	"go/constant"
 	"go/types"
+	"regexp"
 	"sort"
 	"strings"
 
@@ -113,6 +114,8 @@ func (r *armRule) errorCodeSite(x *core.TSCtx) (string, bool) {
 }
 
 // argDescr names an error argument by its origin (position-free).
+var fmtVerb = regexp.MustCompile(`%[-+# 0-9.]*[a-zA-Z]`)
+
 func argDescr(v ssa.Value) string {
 	var parts []string
 	for _, root := range core.ErrRoots(v) {
@@ -121,6 +124,8 @@ func argDescr(v ssa.Value) string {
 			d := callDescr(x)
 			if len(x.Call.Args) > 0 {
 				if msg, ok := core.ConstString(x.Call.Args[0]); ok { // errors.New("unknown portal")
+					msg = fmtVerb.ReplaceAllString(msg, "") // the text identifies the site, not how operands are formatted
+					msg = strings.TrimRight(msg, " :")
 					if len(msg) > 28 {
 						msg = msg[:28]
 					}
